@@ -290,6 +290,55 @@ func c14Teardown(p *P, r *R, sc *ssa.Function) {
 		}
 	}
 	r.ob("R14.4", "teardown: closes every stream of the table", p.pos(td.Pos()), okStreams, true, "streams fail their pending and later calls and get their close callbacks")
+	// every stream's callback goroutine is awaited after its Close, and all of that precedes the release of the
+	// shared memory: a callback still running when the mapping disappears faults the whole process
+	var rangeLoop ssa.Instruction
+	okWait := false
+	for _, ci := range findInstrs(td, p.mCall("(*Stream).Close")) {
+		x := ci.(*ssa.Call).Call.Args[0]
+		if e, ok := x.(*ssa.Extract); ok {
+			if nx, ok := e.Tuple.(*ssa.Next); ok {
+				rangeLoop = nx
+			}
+		}
+		res := p.mustPass(td, []Point{pointOf(ci)}, func(in ssa.Instruction) bool {
+			c, ok := in.(*ssa.Call)
+			if !ok || p.calleeName(&c.Call) != "(*sync.WaitGroup).Wait" {
+				return false
+			}
+			fa, okf := c.Call.Args[0].(*ssa.FieldAddr)
+			return okf && fieldKey(fa) == "Stream.asyncGoroutineWg" && fa.X == x
+		}, func(b *ssa.BasicBlock, i int) bool { return true }, nil)
+		// the must-pass is relative to the loop: from Close, before the next iteration or the loop exit
+		again := rangeLoop != nil && p.reachesWithout(pointOf(ci), rangeLoop, func(in ssa.Instruction) bool {
+			c, ok := in.(*ssa.Call)
+			if !ok || p.calleeName(&c.Call) != "(*sync.WaitGroup).Wait" {
+				return false
+			}
+			fa, okf := c.Call.Args[0].(*ssa.FieldAddr)
+			return okf && fieldKey(fa) == "Stream.asyncGoroutineWg" && fa.X == x
+		}, nil)
+		_ = res
+		okWait = !again
+	}
+	r.ob("R14.4", "teardown: waits for every stream's callback goroutine after closing the stream", p.pos(td.Pos()), okWait && rangeLoop != nil, true,
+		"Stream.Close returns early while a callback is running; without the wait the teardown unmaps memory the callback still reads")
+	if rangeLoop != nil {
+		okOrder := true
+		allInstrs(td, func(in ssa.Instruction) {
+			c, ok := in.(*ssa.Call)
+			if !ok {
+				return
+			}
+			n := p.calleeName(&c.Call)
+			if n == "addGlobalBufferManagerRefCount" || n == "(*queueManager).unmap" {
+				if !instrDominates(rangeLoop, in) {
+					okOrder = false
+				}
+			}
+		})
+		r.ob("R14.4", "teardown: shared memory is released only after every stream was closed and awaited", p.pos(td.Pos()), okOrder, true, "")
+	}
 	okTake := false
 	for _, si := range findInstrs(td, mStoreWord("Session.streams")) {
 		held, _ := p.heldBefore(td, p.mutexRegion("Session.streamLock"), false)
